@@ -494,7 +494,14 @@ fn connect(ca: &Crypto, cb: &Crypto, ia: u8, ib: u8, init_first: bool) -> Option
 fn handshake_cleartext(t: &mut Trace, c: &mut Counters) {
     let mut rng = rng(76);
     let (pr, pb) = fresh_keypair();
-    let key = KeyCfg::Pair(pr, pb);
+    let key = KeyCfg::Pair(pr.clone(), pb);
+    let signer = {
+        let mut raw = crate::util::from_base62(&pr).unwrap_or_default();
+        while raw.len() < 32 {
+            raw.insert(0, 0);
+        }
+        ring::signature::Ed25519KeyPair::from_seed_unchecked(&raw).ok()
+    };
     let lists: Vec<Vec<(u64, u64)>> = vec![vec![], vec![(1, 2)], vec![(2, 2)], vec![(3, 2)], vec![(1, 1), (2, 2)], vec![(1, 2), (2, 1), (3, 3)]];
     for la in &lists {
         for lb in &lists {
@@ -502,7 +509,11 @@ fn handshake_cleartext(t: &mut Trace, c: &mut Counters) {
                 if la.is_empty() && !ap || lb.is_empty() && !bp {
                     continue; // a node without ciphers and without plain cannot be configured
                 }
-                for init_a in [true, false] {
+                for (init_a, future) in [(true, false), (false, false), (true, true), (false, true)] {
+                    // future: the initiator is a later version whose (correctly signed) ping also advertises ciphers unknown here
+                    if future && (la.is_empty() || lb.is_empty()) {
+                        continue;
+                    }
                     let ca = ctx_with(1, &key, &[], la, ap);
                     let cb = ctx_with(2, &key, &[], lb, bp);
                     let (ia, ib) = (big_node_info(&mut rng), big_node_info(&mut rng));
@@ -514,7 +525,22 @@ fn handshake_cleartext(t: &mut Trace, c: &mut Counters) {
                     let mut queue: std::collections::VecDeque<(bool, Vec<u8>)> = Default::default(); // (to x?, bytes)
                     let r = if init_a { x.initialize(&mut m) } else { y.initialize(&mut m) };
                     if r.is_ok() {
-                        queue.push_back((!init_a, m.message().to_vec()));
+                        let mut ping = m.message().to_vec();
+                        if future {
+                            if let (Some((off, mut es)), Some(kp)) = (super::negotiate::algo_part(&ping), signer.as_ref()) {
+                                let n = es.len();
+                                es.insert(0, super::negotiate::entry(9, 777.0));
+                                es.push(super::negotiate::entry(200, 1.0));
+                                let mut d = super::negotiate::rebuild(&ping, off, n, &es);
+                                let l = d.len();
+                                if l > 70 && d[l - 65] == 64 {
+                                    let sig = kp.sign(&d[1..l - 65]);
+                                    d[l - 64..].copy_from_slice(sig.as_ref());
+                                    ping = d;
+                                }
+                            }
+                        }
+                        queue.push_back((!init_a, ping));
                     }
                     let mut steps = 0;
                     let mut secs = 0;
@@ -548,7 +574,7 @@ fn handshake_cleartext(t: &mut Trace, c: &mut Counters) {
                     }
                     let both = ap && bp;
                     let all: Vec<u8> = wire.iter().flat_map(|d| d.iter().copied().chain([0xaau8; 9])).collect();
-                    let name = format!("{:?}{}|{:?}{}|{}", la, if ap { "+plain" } else { "" }, lb, if bp { "+plain" } else { "" }, if init_a { "A" } else { "B" });
+                    let name = format!("{:?}{}|{:?}{}|{}{}", la, if ap { "+plain" } else { "" }, lb, if bp { "+plain" } else { "" }, if init_a { "A" } else { "B" }, if future { "|future-peer" } else { "" });
                     for (what, clear) in [("handshake-info-a", &ea), ("handshake-info-b", &eb)] {
                         let mut e = cleartext_event("handshake", what, &name, both, clear, &all, c);
                         e["datagrams"] = json!(wire.len());
